@@ -70,9 +70,18 @@ extern const std::vector<const char*> FIELDS;
 Case generate();
 void run(const Case&);
 std::string finding_key(const Case&, const std::string& failkey);
+// optional: exhaustive enumeration of a small finite sub-domain (mode --enum)
+void enumerate_cases(std::vector<Case>& out) __attribute__((weak));
 
 // ------------------------------------------------------------ child side
 static int g_verdict_fd = 2;
+// in-process mode (value-quantified properties without per-case runtime
+// state): run() is called in the rapidcheck process and verdicts are thrown
+static bool g_inproc = false;
+struct VerdictEx {
+  std::string status, key, labels, nums, msg;
+  bool nontrivial;
+};
 static std::map<std::string, std::string> g_labels;
 static bool g_nontrivial = false;
 
@@ -117,6 +126,8 @@ static std::string sanitize(std::string s) {
            (unsigned long long)gsched_now(),
            (unsigned long long)gsched_switches(),
            (unsigned long long)gsched_preemptions());
+  if (g_inproc)
+    throw VerdictEx{status, key, labels_str(), nums, sanitize(msg), g_nontrivial};
   std::string line = std::string(status) + "\t" + key + "\t" +
                      (g_nontrivial ? "1" : "0") + "\t" + labels_str() + "\t" +
                      nums + "\t" + sanitize(msg) + "\n";
@@ -222,7 +233,8 @@ static std::string case_json(const Case& c) {
   for (size_t i = 0; i < c.f.size(); ++i) {
     if (i)
       s += ",";
-    s += "\"" + std::string(i < FIELDS.size() ? FIELDS[i] : "?") +
+    // fields beyond the named ones are a variable-length tail x0, x1, ...
+    s += "\"" + (i < FIELDS.size() ? std::string(FIELDS[i]) : "x" + std::to_string(i - FIELDS.size())) +
          "\":" + std::to_string(c.f[i]);
   }
   return s + "}";
@@ -240,7 +252,58 @@ static uint64_t case_hash(const Case& c) {
 
 static int g_timeout_ms = 20000;
 
+static char g_crash_line[4096];
+static char g_crash_path[512];
+static char g_crash_json[3072];
+static void crash_handler(int sig) {
+  // in-process mode: save the running case as replay and report it
+  int fd = open(g_crash_path, O_WRONLY | O_CREAT | O_TRUNC, 0644);
+  if (fd >= 0) {
+    ssize_t r = write(fd, g_crash_json, strlen(g_crash_json));
+    (void)r;
+    close(fd);
+  }
+  char sigs[32];
+  snprintf(sigs, sizeof sigs, "%d", sig);
+  ssize_t r = write(1, g_crash_line, strlen(g_crash_line));
+  (void)r;
+  _exit(1);
+}
+static std::string g_rdir = ".", g_tag = "w0";
+std::string finding_key(const Case&, const std::string& failkey);
+static uint64_t case_hash(const Case& c);
+static std::string case_json(const Case& c);
+
+static Outcome run_inproc(const Case& c) {
+  Outcome o;
+  g_labels.clear();
+  g_nontrivial = false;
+  std::string fkey = finding_key(c, "crash");
+  snprintf(g_crash_path, sizeof g_crash_path, "%s/%s-%s-crash-%llu.json", g_rdir.c_str(), HARNESS,
+           g_tag.c_str(), (unsigned long long)(case_hash(c) % 100000000));
+  snprintf(g_crash_json, sizeof g_crash_json,
+           "{\"harness\":\"%s\",\"finding_key\":\"%s\",\"fail_key\":\"crash\",\"message\":\"crashed (signal) in-process; not shrunk\",\"case\":%s}\n",
+           HARNESS, fkey.c_str(), case_json(c).c_str());
+  snprintf(g_crash_line, sizeof g_crash_line,
+           "FALSIFIED harness=%s key=%s replay=%s msg=crashed (signal) in-process; not shrunk\n", HARNESS,
+           fkey.c_str(), g_crash_path);
+  try {
+    run(c);
+    vok();
+  } catch (VerdictEx& e) {
+    o.status     = e.status;
+    o.key        = e.key;
+    o.labels     = e.labels;
+    o.nums       = e.nums;
+    o.msg        = e.msg;
+    o.nontrivial = e.nontrivial;
+  }
+  return o;
+}
+
 static Outcome run_in_child(const Case& c) {
+  if (g_inproc)
+    return run_inproc(c);
   int fds[2];
   if (pipe(fds))
     abort();
@@ -417,6 +480,14 @@ static bool parse_case_file(const char* path, Case& c) {
       continue;
     c.f[i] = strtoll(s.c_str() + p + 1, nullptr, 10);
   }
+  for (size_t i = 0;; ++i) {
+    std::string k = "\"x" + std::to_string(i) + "\"";
+    size_t p      = s.find(k);
+    if (p == std::string::npos)
+      break;
+    p = s.find(':', p);
+    c.f.push_back(strtoll(s.c_str() + p + 1, nullptr, 10));
+  }
   return true;
 }
 
@@ -441,14 +512,23 @@ inline void ensure_no_aslr(char** argv) {
 // usage:
 //   harness --gen  --out <stats.json> [--replay-dir d] [--tag t]   (RC_PARAMS from env)
 //   harness --replay <file> [--times k]
-inline int e1_main(int argc, char** argv) {
-  ensure_no_aslr(argv);
+inline int e1_main(int argc, char** argv, bool inproc = false) {
+  g_inproc = inproc;
+  if (inproc) {
+    signal(SIGSEGV, crash_handler);
+    signal(SIGABRT, crash_handler);
+    signal(SIGFPE, crash_handler);
+    signal(SIGBUS, crash_handler);
+  } else
+    ensure_no_aslr(argv);
   std::string mode, out, replay, rdir = ".", tag = "w0";
   int times = 1, sweep = 1;
   for (int i = 1; i < argc; ++i) {
     std::string a = argv[i];
     if (a == "--gen")
       mode = "gen";
+    else if (a == "--enum")
+      mode = "enum";
     else if (a == "--replay" && i + 1 < argc) {
       mode   = "replay";
       replay = argv[++i];
@@ -459,9 +539,9 @@ inline int e1_main(int argc, char** argv) {
     else if (a == "--sweep" && i + 1 < argc)
       sweep = atoi(argv[++i]);
     else if (a == "--replay-dir" && i + 1 < argc)
-      rdir = argv[++i];
+      g_rdir = rdir = argv[++i];
     else if (a == "--tag" && i + 1 < argc)
-      tag = argv[++i];
+      g_tag = tag = argv[++i];
     else if (a == "--timeout-ms" && i + 1 < argc)
       g_timeout_ms = atoi(argv[++i]);
   }
@@ -493,6 +573,33 @@ inline int e1_main(int argc, char** argv) {
     printf("REPLAY harness=%s runs=%d fails=%d inconclusive=%d key=%s msg=%s\n",
            HARNESS, times, fails, inconc, lastkey.c_str(), lastmsg.c_str());
     return fails ? 1 : 0;
+  }
+  if (mode == "enum") {
+    std::vector<Case> cases;
+    if (enumerate_cases)
+      enumerate_cases(cases);
+    Agg agg;
+    for (auto& c : cases) {
+      Outcome o = run_in_child(c);
+      agg.add(c, o);
+      if (o.status == "FAIL") {
+        std::string fkey = finding_key(c, o.key);
+        std::string path = rdir + "/" + HARNESS + "-enum-" + std::to_string(case_hash(c) % 100000000) + ".json";
+        write_replay(path, c, o, fkey);
+        if (!out.empty()) {
+          std::ofstream f(out);
+          f << agg.json() << "\n";
+        }
+        printf("FALSIFIED harness=%s key=%s replay=%s msg=%s\n", HARNESS, fkey.c_str(), path.c_str(), o.msg.c_str());
+        return 1;
+      }
+    }
+    if (!out.empty()) {
+      std::ofstream f(out);
+      f << agg.json() << "\n";
+    }
+    printf("PASSED harness=%s exhaustive evaluations=%ld nontrivial=%zu\n", HARNESS, agg.evaluations, agg.nontriv.size());
+    return 0;
   }
   if (mode != "gen") {
     fprintf(stderr, "usage: %s --gen --out f | --replay f\n", argv[0]);
@@ -533,5 +640,11 @@ inline int e1_main(int argc, char** argv) {
 
 } // namespace verif
 
+// in-process variant: `init` is a statement list run once before the search
+#define VERIF_INPROC_MAIN(init)                                                \
+  int main(int argc, char** argv) {                                            \
+    init;                                                                      \
+    return verif::e1_main(argc, argv, true);                                   \
+  }
 #define VERIF_E1_MAIN                                                          \
   int main(int argc, char** argv) { return verif::e1_main(argc, argv); }
